@@ -127,6 +127,18 @@ def indep_write(store, g, enc):
 
     rng = random.Random(enc["seed"])
     fmt = enc["fmt"]
+
+    def native(a):
+        return a if a.dtype == object else np.array(a, order="C").astype(a.dtype.newbyteorder("="))
+
+    def native_prop(p):
+        v = p["values"]
+        vals = R.obj_array([native(e) for e in v]) if v.dtype == object else native(v)
+        return {"values": vals, "missing": None if p["missing"] is None else native(p["missing"])}
+    # the independent writer works from the logical contents; memory layout / byte order of the inputs is not its concern
+    g = {"node_ids": native(g["node_ids"]), "edge_ids": native(g["edge_ids"]),
+         "node_props": {k: native_prop(p) for k, p in g["node_props"].items()},
+         "edge_props": {k: native_prop(p) for k, p in g["edge_props"].items()}}
     attrs = {"creator": {"tool": "not-geff", "v": [1, 2]}, "multiscales": []} if enc["extra_attrs"] else {}
     root = zarr.create_group(store, zarr_format=fmt, attributes=dict(attrs))
 
@@ -357,7 +369,7 @@ def run(ck: common.Check):
                "missing omitted/all-false, dummy values, optional groups absent/empty, omitted/shuffled metadata, foreign "
                "attrs/siblings, var-length sections out of order with gaps; string encoding and offset-table dtype counted "
                "separately), read by read_to_memory with validation on and off. non-trivial = at least one node or property")
-    base = [c for c in C01.exhaustive(ck.quick) + C01.special_cases() if C01.wf_case(c)]
+    base = [c for c in C01.rotate_layouts(C01.exhaustive(ck.quick)) + C01.special_cases() if C01.wf_case(c)]
     nrand = 500 if ck.quick else 8000
     base += [c for c in (C01.random_case(ck.rng, ck.quick) for _ in range(nrand)) if C01.wf_case(c)]
     corpus = list(R.corpus(PROP))
